@@ -50,7 +50,7 @@ def cstr(sh):
     return '"' + sh.replace('\\', '\\\\').replace('\r', '\\r').replace('\n', '\\n').replace('"', '\\"') + '"'
 def shname(sh):
     return sh.replace('\r', 'R').replace('\n', 'N').replace(' ', '_').replace(':', 'c').replace('/', 's').replace('.', 'p')
-def split(side, start, shape, cuts=None, tier='quick', timeout=900, mem_gb=10, kfs=(), nostd=False, nohdr=False, **kw):
+def split(side, start, shape, cuts=None, tier='quick', timeout=900, mem_gb=4, kfs=(), nostd=False, nohdr=False, **kw):
     n = len(shape); obs = []
     sname = {1: 'HEADERS', 2: 'LINE', 3: 'FINALIZE'}[start]
     for cut in (cuts if cuts is not None else range(1, n)):
@@ -63,7 +63,7 @@ def split(side, start, shape, cuts=None, tier='quick', timeout=900, mem_gb=10, k
               (r'^(memchr|bstr_chr|htp_is_line_|htp_connp_is_line|htp_treat_response|bstr_util_mem_trim)', n + 2), (r'^htp_convert_method', 45), (r'^bstr_util_cmp_mem', 20)]
         flags = ['--no-standard-checks'] if nostd else []
         obs.append(Ob('%s.split.%s.%s.cut%d' % (side, sname, shname(shape), cut), 'stream/%s_split.c' % side, units=STREAM_UNITS, models=STREAM_MODELS, remove=STREAM_RM, defines=d, unwind=n + 4, unwind_by=ub,
-                      restrict_by=(REQ_FP if side == 'req' else RES_FP), flags=flags, tier=tier, timeout=timeout, mem_gb=mem_gb, kfs=list(kfs), cost=60,
+                      restrict_by=(REQ_FP if side == 'req' else RES_FP), flags=flags, tier=tier, timeout=timeout, mem_gb=(max(mem_gb, 8) if start == 3 else mem_gb), kfs=list(kfs), cost=(150 if start == 3 else 60),
                       statement='merge lemma: %s_%s on this fragment delivered whole == delivered in two chunks cut at offset %d (event log: lines/headers handed on, body bytes, tx events, bytes left for the successor, flags)' % (P, sname, cut),
                       bounds='fragment shape %r (x = any field byte, y = any byte), %d bytes, cut %d' % (shape, n, cut), **kw))
     return obs
